@@ -539,8 +539,17 @@ let dump_str m =
       List.map (fun d -> Printf.sprintf "%s^%s^%s^%s" (implode sec) (enc d.ad_key) (enc d.ad_value)
                    (enc_rule d.ad_tokens)) ds) m in
   if out = [] then "-" else String.concat "+" out
+(* known finding D29 (class to_text_token_embedding): Model::to_text un-escapes tokens by successive textual replacement in HashMap
+   order; when one token's text is a proper part of another's (r = a, p = r_a: "r_a" inside "p_r_a") the printed text is wrong
+   whatever the order, and differs from run to run. The class predicate: two different replacement patterns, one inside the other. *)
+let token_embedding (m : (char list * adef list) list) : bool =
+  let toks = List.concat_map (fun (sec, ds) ->
+      if implode sec = "r" || implode sec = "p" then List.concat_map (fun d -> d.ad_tokens) ds else []) m in
+  let toks = List.sort_uniq compare toks in
+  List.exists (fun a -> List.exists (fun b -> a <> b && is_infix a b) toks) toks
 let run_txt2 kind t1 t2opt =
   let a = model_of_text (dec t1) in
+  if kind = "tt" && (match a with Some m -> token_embedding m | None -> false) then "~" else
   let t2 = match kind, t2opt with
     | "mdl2", Some t2 -> Some (dec t2)
     | _ -> (match a with Some m -> Some (to_text m) | None -> None) in
@@ -560,8 +569,13 @@ let pred_txt toks impl =
     let exp = rule_of_out0 expected in
     b01 (c16_csv_pred exp (if impl = "N" then None else Some (rule_of_out0 impl)))
   | ["mdl2"; _; _] | ["tt"; _] ->
+    let known = (match toks with
+        | ["tt"; t] -> (match model_of_text (dec t) with Some m -> token_embedding m | None -> false)
+        | _ -> false) in
     (match Str.bounded_split (Str.regexp_string " ## ") impl 2 with
-     | [a; b] when a <> "E" && b <> "E" -> b01 (c16_model_equiv (parse_dump a) (parse_dump b))
+     | [a; b] when a <> "E" && b <> "E" ->
+       if c16_model_equiv (parse_dump a) (parse_dump b) then "1" else if known then "K:to_text_token_embedding" else "0"
+     | [a; _] when a <> "E" && known -> "K:to_text_token_embedding"
      | _ -> "0")
   | _ -> "1"   (* totality stream: parsed or rejected, never a panic *)
 
